@@ -135,6 +135,10 @@ def STATE(t):
         return _reg(st, 'ST', [[[[int(v) for v in a[0]], int(a[1])] for a in rows], int(r)])
     gs = GS([a[0] for a in rows])
     ps = np.array([a[1] for a in rows], dtype=I_)
+    if ROUTES[0] and (len(rows) + int(r)) % 3 == 0:
+        # the documented low-level constructor takes the rank itself, by position or by keyword
+        st_ = ST.StabilizerState(gs, int(r), ps=ps) if (len(rows) + int(r)) % 2 == 0 else ST.StabilizerState(gs=gs, ps=ps, r=int(r))
+        return _reg(st_, 'ST', [[[[int(v) for v in a[0]], int(a[1])] for a in rows], int(r)])
     return _reg(ST.StabilizerState(gs, ps=ps).set_r(int(r)), 'ST', [[[[int(v) for v in a[0]], int(a[1])] for a in rows], int(r)])
 
 
